@@ -57,8 +57,8 @@ pub fn run_c15(cfg: &RunCfg, trace: bool) -> RunOut {
         Ok(a) => a,
         Err(e) => return RunOut { harness_error: Some(format!("async stack: {}", e)), ..Default::default() },
     };
-    let mut x1 = AExec { root: a1.root.clone(), slots: Default::default() };
-    let mut x2 = AExec { root: a2.root.clone(), slots: Default::default() };
+    let mut x1 = AExec { root: a1.root.clone(), slots: Default::default(), others: vec![] };
+    let mut x2 = AExec { root: a2.root.clone(), slots: Default::default(), others: vec![] };
     let shape = cx.shape.clone();
     let mut sig = crate::rng::hash_str(&shape);
     let (mut succ_mut, mut demanded_fail) = (0, 0);
